@@ -492,13 +492,34 @@ def dataclass_battery():
         ("ListOfList", [("a", ("coll", "list", ("coll", "list", ("int",))))], []),
         ("ListOfTypeVar", [("a", ("coll", "list", ("tvar", "I")))], []),
     ]
+    # the same dataclasses with their annotations left as TEXT (`from __future__ import annotations` / quoted): resolved
+    # by get_type_hints in this module's namespace
+    setattr(sys.modules[__name__], "Item", Item)
+
+    def text(t):
+        k = t[0]
+        if k in py:
+            return k
+        if k == "ser":
+            return "Item"
+        if k == "lit":
+            return "[Item]"
+        if k == "coll":
+            inner = text(t[2])
+            return f"tuple[{inner}, ...]" if t[1] == "tuple" and t[3:] == ("ellipsis",) else f"{t[1]}[{inner}]"
+        return None
+
+    for name, fields, user in list(cases):
+        if all(text(f[1]) is not None for f in fields) and name not in ("Natives",):
+            cases.append((name + "AsText", fields, user))
     out = []
     for name, fields, user in cases:
         ns = {f"fix_unpack_{n}": staticmethod(sorted) for n in user}
         spec = []
         for f in fields:
             n, t = f[0], f[1]
-            spec.append((n, ann(t), dataclasses.field(default=None)) if len(f) > 2 else (n, ann(t)))
+            a = text(t) if name.endswith("AsText") else ann(t)
+            spec.append((n, a, dataclasses.field(default=None)) if len(f) > 2 else (n, a))
         cls = dataclasses.make_dataclass("Battery" + name, spec, bases=(DataClassPayload,), namespace=ns)
         cls.__module__ = __name__
         try:
